@@ -109,6 +109,10 @@ type c03bWorld struct {
 }
 
 func c03bNewWorld(t *testing.T, run *vk.Run) *c03bWorld {
+	return c03bNewWorldCfg(t, run, &security.BruteForceConfig{MaxFailures: c03bMaxFailures, TimeWindow: time.Hour, BanDuration: time.Hour, PermanentBanAt: 100000000, CleanupInterval: time.Hour})
+}
+
+func c03bNewWorldCfg(t *testing.T, run *vk.Run, bf *security.BruteForceConfig) *c03bWorld {
 	ctx, cancel := context.WithCancel(context.Background())
 	mem, ok := storage.NewMemoryStorage(ctx).(storage.FullStorage)
 	if !ok {
@@ -117,7 +121,6 @@ func c03bNewWorld(t *testing.T, run *vk.Run) *c03bWorld {
 	g := &c03bGate{run: run}
 	gs := vk.NewGated("store", mem)
 	gs.SetHook(g.hook)
-	bf := &security.BruteForceConfig{MaxFailures: c03bMaxFailures, TimeWindow: time.Hour, BanDuration: time.Hour, PermanentBanAt: 100000000, CleanupInterval: time.Hour}
 	rl := &security.RateLimitConfig{Rate: 1000000, Burst: 1000000, TTL: time.Hour}
 	n := newMiniNode(t, miniOpts{Store: gs, BruteForce: bf, RateLimit: rl, NoCommands: true})
 	w := &c03bWorld{n: n, gate: g, run: run, secret: map[int64]string{}, cancel: cancel}
